@@ -196,7 +196,18 @@ let job_exhaust (job : Sx.t) : string =
                  | Some (Pat.VInt z) -> string_of_z z
                  | _ -> "unbound") in
             Printf.sprintf " (%s %s)" k bv) vals) ^ ")" in
-  Printf.sprintf "%s (verdict %s)%s %s" pats verdict extra run
+  (* the model of the REAL algorithm (Exhaust/Useful.v): its witnesses, printed and sorted as the harness does *)
+  let umissing =
+    if not wt then ""
+    else
+      let fb = Useful.fuel_bound c.env c.fuel [c.t] in
+      match Useful.check_exhaustive fb c.env c.t ps with
+      | None -> " (umissing nofuel)"
+      | Some ws ->
+        let items = Stdlib.List.map (fun st ->
+            "(w" ^ String.concat "" (Stdlib.List.map (fun p -> " " ^ fmt_pat p) st) ^ ")") ws in
+        " (umissing" ^ String.concat "" (Stdlib.List.map (fun x -> " " ^ x) (Stdlib.List.sort compare items)) ^ ")" in
+  Printf.sprintf "%s (verdict %s)%s%s %s" pats verdict extra umissing run
 
 (* (witness id (defs ..) (ty T) (arms ..) (ws p..)) -> (wok 1|0|u ...) *)
 let job_witness (job : Sx.t) : string =
